@@ -33,26 +33,26 @@ func (s *Storage) GetNextSeqNum(storageID fix.StorageID) (int, error) {
 
 func (s *Storage) GetCurrSeqNum(storageID fix.StorageID) (int, error) {
 	if storageID.Side == fix.Incoming {
-		return int(s.counterIncoming), nil
+		return int(atomic.LoadInt64(&s.counterIncoming)), nil
 	} else {
-		return int(s.counterOutgoing), nil
+		return int(atomic.LoadInt64(&s.counterOutgoing)), nil
 	}
 }
 
 func (s *Storage) ResetSeqNum(storageID fix.StorageID) error {
 	if storageID.Side == fix.Incoming {
-		s.counterIncoming = 0
+		atomic.StoreInt64(&s.counterIncoming, 0)
 	} else {
-		s.counterOutgoing = 0
+		atomic.StoreInt64(&s.counterOutgoing, 0)
 	}
 	return nil
 }
 
 func (s *Storage) SetSeqNum(storageID fix.StorageID, seqNum int) error {
 	if storageID.Side == fix.Incoming {
-		s.counterIncoming = int64(seqNum)
+		atomic.StoreInt64(&s.counterIncoming, int64(seqNum))
 	} else {
-		s.counterOutgoing = int64(seqNum)
+		atomic.StoreInt64(&s.counterOutgoing, int64(seqNum))
 	}
 	return nil
 }
@@ -75,7 +75,7 @@ func (s *Storage) Messages(_ fix.StorageID, msgSeqNumFrom, msgSeqNumTo int) ([]s
 		return nil, simplefixgo.ErrInvalidBoundaries
 	}
 
-	if int64(msgSeqNumTo) > s.counterOutgoing {
+	if int64(msgSeqNumTo) > atomic.LoadInt64(&s.counterOutgoing) {
 		return nil, simplefixgo.ErrNotEnoughMessages
 	}
 
